@@ -12,6 +12,7 @@ def build(R):
     outgoing_model.install_primitives(R)
     outgoing_model.install_uninterpreted_strings(R)
     outgoing_model.install_writers(R)
+    outgoing_model.install_entries(R)
 
 
 def configure(ctx, R):
